@@ -15,6 +15,7 @@ import (
 	"sort"
 	"strconv"
 	"strings"
+	"syscall"
 	"time"
 
 	"github.com/klev-dev/klevdb"
@@ -296,7 +297,7 @@ func (r *Runner) Exec(line string) (lhs string, res string) {
 		// second message has key+value of exactly (64 MiB + delta) bytes is published between small ones; it must be
 		// accepted as a whole iff delta <= 0, and a refused batch leaves nothing behind (the next publish continues
 		// where the log was). 64 MiB is the documented limit (the T1 obligation ties the code's constant to it).
-		return lhs, r.edgeCase(int(atoi(args[0])), atoi(args[1]))
+		return lhs, bigOp(func() string { return r.edgeCase(int(atoi(args[0])), atoi(args[1])) })
 	case "open":
 		if sd.log != nil {
 			return lhs, "bad-op already-open"
@@ -407,7 +408,13 @@ func (r *Runner) Exec(line string) (lhs string, res string) {
 			msgs = append(msgs, m)
 			given = append(given, g)
 		}
-		next, err := l.Publish(msgs)
+		var next int64
+		var err error
+		if strings.Contains(line, "!big") {
+			_ = bigOp(func() string { next, err = l.Publish(msgs); return "" })
+		} else {
+			next, err = l.Publish(msgs)
+		}
 		var sb strings.Builder
 		fmt.Fprintf(&sb, "pub %d", len(msgs))
 		for i, m := range msgs {
@@ -676,6 +683,19 @@ func (r *Runner) Exec(line string) (lhs string, res string) {
 		return lhs, "ok"
 	}
 	return lhs, "bad-op"
+}
+
+// bigOp runs f while holding a machine-wide lock: the calls that allocate and write 64 MiB are made one at a time,
+// however many workers and checks run side by side (memory, not correctness).
+func bigOp(f func() string) string {
+	lf, err := os.OpenFile(filepath.Join(os.TempDir(), "kvh-bigop.lock"), os.O_CREATE|os.O_RDWR, 0666)
+	if err == nil {
+		defer lf.Close()
+		if syscall.Flock(int(lf.Fd()), syscall.LOCK_EX) == nil {
+			defer syscall.Flock(int(lf.Fd()), syscall.LOCK_UN)
+		}
+	}
+	return f()
 }
 
 func (r *Runner) edgeCase(ver int, delta int64) string {
